@@ -162,6 +162,18 @@ theorem darkPercent_lt (q : QR) (hq : q.cells.size = q.n * q.n) (hn : 0 < q.n)
   omega
 
 /-- the total score is far below 2^32 for every symbol side up to 177 -/
+theorem score_lt_million (q qt : QR) (hn : qt.n = q.n) (h177 : q.n ≤ 177) : score q qt < 3000000 := by
+  obtain ⟨b1, b2, b3⟩ := patternAndLine_bound q qt hn
+  have b4 := squares_bound q
+  have b5 := percentScore_le (darkPercent q)
+  have hs : score q qt = (patternAndLine q qt).1 + (patternAndLine q qt).2.2 + (patternAndLine q qt).2.1 +
+      T.percentScore (darkPercent q) + squares q := rfl
+  rw [hs]
+  have e1 : q.n * (q.n + 1) ≤ 177 * 178 := Nat.mul_le_mul h177 (by omega)
+  have e2 : q.n * (80 * q.n) ≤ 177 * (80 * 177) := Nat.mul_le_mul h177 (by omega)
+  have e3 : (q.n - 1) * ((q.n - 1) * 3) ≤ 176 * (176 * 3) := Nat.mul_le_mul (by omega) (by omega)
+  omega
+
 theorem score_lt (q qt : QR) (hn : qt.n = q.n) (h177 : q.n ≤ 177) : score q qt < 2 ^ 32 := by
   obtain ⟨b1, b2, b3⟩ := patternAndLine_bound q qt hn
   have b4 := squares_bound q
